@@ -30,7 +30,10 @@ HORIZON = 14          # samples inspected of endless readers
 
 
 def fval(c):
-  """ The value of a floating point / complex constant spec ["f", x]. """
+  """ The value of a floating point / complex / exact rational constant spec
+  ["f", x]  (x: a float, [re, im], or {"q": [numerator, denominator]}). """
+  if isinstance(c[1], dict):
+    return Fraction(*c[1]["q"])
   return complex(*c[1]) if isinstance(c[1], list) else c[1]
 
 
@@ -190,6 +193,10 @@ class C06(Property):
         # a floating point constant, in particular one very close to +-1
         # (single filters only: outputs are then compared with a relative
         # tolerance of 1e-9, the model stays exact)
+        if W.chance("rational-constant", 1, 3):
+          # an exact rational that is not an integer (as a0 too)
+          return ["f", {"q": W.pick("qconst", [[1, 3], [-2, 3], [3, 2],
+                                               [1, 2], [-5, 4]])}]
         if W.chance("complex-constant", 1, 4):
           # a complex constant: stored as [re, im] (JSON), outputs complex
           return ["f", W.pick("zconst", [[1, 2], [2, -1], [-1, 2], [0, 1],
@@ -814,6 +821,16 @@ class C06(Property):
     return out
 
   @staticmethod
+  def tree_has_stream(t):
+    """ Any coefficient (or scalar operand) that is not a plain constant? """
+    if t["op"] == "single":
+      return any(c[0] not in ("c", "f") for part in ("num", "den")
+                 for k, c in t[part])
+    if "c" in t and isinstance(t["c"], list) and t["c"][0] not in ("c", "f"):
+      return True
+    return any(C06.tree_has_stream(t[sub]) for sub in ("a", "b") if sub in t)
+
+  @staticmethod
   def tree_repeat_lens(t):
     out = []
 
@@ -858,6 +875,13 @@ class C06(Property):
     except SimStall as st:
       res.violation = Violation("hang", "read-ahead-on-endless-reader",
                                 str(st))
+    if res.violation is not None and not self.tree_has_stream(workload["tree"]):
+      # scope: the statement is about filters of which at least one
+      # coefficient is a Stream; a run whose generated coefficients all came
+      # out as plain constants is an LTI filter (other properties) - counted,
+      # not judged
+      res.counters["lti-only-not-judged"] += 1
+      res.violation = None
     res.digest = digest_events(events)
     fired = any(k.startswith(("probe.", "fault.eof")) and v
                 for k, v in res.counters.items())
